@@ -181,7 +181,20 @@ macro_rules! iter_fin_ok {
         let mut it = $c.$m();
         it.next();
         let count_after_front = it.count();
-        last == a.last().cloned()
+        let mut rfolded = Vec::new();
+        $c.$m().rfold((), |_, t| rfolded.push($enc(t, None)));
+        rfolded.reverse();
+        let rev_first = $c.$m().rev().next().map(|t| $enc(t, None));
+        let fresh_len = $c.$m().len();
+        let mut it = $c.$m();
+        let skipped = it.nth(0).map(|t| $enc(t, None));
+        let len_after_nth = it.len();
+        rfolded == a
+            && rev_first == a.last().cloned()
+            && fresh_len == n
+            && skipped == a.first().cloned()
+            && len_after_nth == n.saturating_sub(1)
+            && last == a.last().cloned()
             && count == n
             && nth1 == a.get(1).cloned()
             && nthb1 == (if n >= 2 { Some(a[n - 2].clone()) } else { None })
